@@ -611,3 +611,5 @@ V('C07', 'benign-captured-opcode-not-kept', EVAL, "        self.sop = sop\n", " 
 V('C07', 'op-limit-error-drops-its-state', EVAL, "        super(MaxOpCountError, self).__init__('max opcode count exceeded',**kwargs)", "        pass", 'C07.A1', scope='MaxOpCountError.__init__')
 V('C14', 'recovery-keeps-going-on-a-bad-point', KEY, "            if not _ssl.EC_POINT_set_compressed_coordinates_GFp(group, R, x, recid % 2, ctx):\n                return 0", "            if not _ssl.EC_POINT_set_compressed_coordinates_GFp(group, R, x, recid % 2, ctx):\n                pass",
   'UNDECIDED:C14.Z2', scope='CECKey.recover')
+V('C16', 'duplicate-input-rule-removed', CORE, "        if txin.prevout in vin_outpoints:\n            raise CheckTransactionError(\"CheckTransaction() : duplicate inputs\")\n", "", ['C16.Z2', 'C16.T1'], scope='CheckTransaction')
+V('C06', 'script-size-limit-removed', EVAL, "    if len(scriptIn) > MAX_SCRIPT_SIZE:\n        raise EvalScriptError('script too large; got %d bytes; maximum %d bytes' %\n                                        (len(scriptIn), MAX_SCRIPT_SIZE),\n                              stack=stack,\n                              scriptIn=scriptIn,\n                              txTo=txTo,\n                              inIdx=inIdx,\n                              flags=flags)\n", "", ['C06.Z2', 'C06.L1'], scope='_EvalScript')
